@@ -55,6 +55,24 @@ func v1SpendBlock(s *chain.Sim, e types.SiacoinElement) (types.Block, consensus.
 	return b, supp, &b.Transactions[0], true
 }
 
+// v1SiafundSpendBlock spends siafund element e revealing recipe r's unlock conditions.
+func v1SiafundSpendBlock(s *chain.Sim, e types.SiafundElement, r *chain.Recipe) (types.Block, consensus.V1BlockSupplement, bool) {
+	if r == nil || !r.V1Spendable() {
+		return types.Block{}, consensus.V1BlockSupplement{}, false
+	}
+	t := types.Transaction{
+		SiafundInputs:  []types.SiafundInput{{ParentID: e.ID, UnlockConditions: *r.UC, ClaimAddress: s.NewAddr(false)}},
+		SiafundOutputs: []types.SiafundOutput{{Value: e.SiafundOutput.Value, Address: s.NewAddr(false)}},
+	}
+	if !s.ResignV1(&t) {
+		return types.Block{}, consensus.V1BlockSupplement{}, false
+	}
+	b := emptyBlock(s)
+	b.Transactions = []types.Transaction{t}
+	supp := consensus.V1BlockSupplement{Transactions: []consensus.V1TransactionSupplement{{SiafundInputs: []types.SiafundElement{e.Copy()}}}}
+	return b, supp, true
+}
+
 func v2SpendBlock(s *chain.Sim, e types.SiacoinElement) (types.Block, bool) {
 	if s.RecipeFor(e.SiacoinOutput.Address) == nil || e.SiacoinOutput.Value.IsZero() {
 		return types.Block{}, false
@@ -181,6 +199,41 @@ func probesAt(s *chain.Sim, rng *rand.Rand) []probe {
 				out[len(out)-1].note = fmt.Sprintf("kind=%s keys=%d sigs=%d idx=%v", r.Kind, len(r.Keys), len(t.Signatures), r.UCKeyIdx)
 			}
 			nsc += 3
+		}
+	}
+
+	// --- siafund inputs (v1): unlock-conditions timelock, also through the developer-address override
+	if v1ok {
+		da := s.Net.HardforkDevAddr
+		nsf := 0
+		for _, e := range s.St.SortedSF() {
+			if nsf > 8 {
+				break
+			}
+			if r := s.RecipeFor(e.SiafundOutput.Address); r != nil && r.Kind == "uclock" && near(r.UC.Timelock) {
+				if b, supp, ok := v1SiafundSpendBlock(s, e, r); ok {
+					add("uc-timelock-v1-siafund", r.UC.Timelock, r.UC.Timelock <= child, b, supp)
+					nsf++
+				}
+			}
+			if e.SiafundOutput.Address == da.OldAddress {
+				if nr := s.RecipeFor(da.NewAddress); nr != nil && nr.UC != nil {
+					// the override exists from the hardfork height on …
+					if near(da.Height) && nr.UC.Timelock <= child {
+						if b, supp, ok := v1SiafundSpendBlock(s, e, nr); ok {
+							add("devaddr-override-height", da.Height, child >= da.Height, b, supp)
+							nsf++
+						}
+					}
+					// … and the revealed conditions' own timelock still applies
+					if child >= da.Height && near(nr.UC.Timelock) {
+						if b, supp, ok := v1SiafundSpendBlock(s, e, nr); ok {
+							add("uc-timelock-v1-siafund-devaddr", nr.UC.Timelock, nr.UC.Timelock <= child, b, supp)
+							nsf++
+						}
+					}
+				}
+			}
 		}
 	}
 
